@@ -40,7 +40,9 @@ theorem C01_step (f : Forest) (n : Bool) (op : Op) (hf : f.ok = true) :
       exact addRoot_ok _ _ (ok_of_subset hf hv.2) (okRoot_of_okAt hv.1)
     | atom a => simp only [step]; exact hf
     | fresh => simp only [step]; exact hf
+    | freshTuple k => simp only [step]; exact hf
     | mkRef tg => simp only [step]; exact hf
+    | typedList items => simp only [step]; exact hf
     | ref id => simp only [step]; exact hf
   | clone t deep =>
     cases hfind : f.find? t with
